@@ -66,12 +66,15 @@ class Ctx:
         self._nontrivial = set()
         self._lock = None
         self.case_dir = os.path.join(COQ, "Cases", prop)
-        rdir = os.path.join(VERIF, "replays", prop)
+        self.thorough = tier == "thorough"
+
+    def clean_replays(self):
+        """a run of the check (not a replay) starts by removing the replay files of its tier"""
+        rdir = os.path.join(VERIF, "replays", self.prop)
         if os.path.isdir(rdir):
             for fn in os.listdir(rdir):
-                if fn.startswith(tier + "_"):
+                if fn.startswith(self.tier + "_"):
                     os.remove(os.path.join(rdir, fn))
-        self.thorough = tier == "thorough"
 
     # ------------------------------------------------------------ logging
     def log(self, *a):
